@@ -388,7 +388,7 @@ func (w *c23World) drawOp(t *rapid.T, progress int) c23Op {
 		w int
 	}
 	ws := []wk{{"bc", 14}, {"bp", 8}, {"br", 12}, {"bx", 4}, {"bs", 4}, {"bd", 9}, {"cd", 3}, {"dc", 5},
-		{"gp", 7}, {"gu", 7}, {"gd", 4}, {"lp", 5}, {"lu", 5}, {"ld", 3},
+		{"gp", 9}, {"gu", 9}, {"gd", 4}, {"lp", 5}, {"lu", 5}, {"ld", 3},
 		{"optin", 7}, {"closeout", 3}, {"clear", 4}, {"update", 3}, {"cl", 2}, {"fund", 1}}
 	if len(opted) == 0 {
 		ws[14].w = 16
@@ -471,9 +471,15 @@ func (w *c23World) drawOp(t *rapid.T, progress int) c23Op {
 		op.Name = w.drawName(t, a, 88)
 	case "gp", "gu", "gd":
 		op.Name = c23Keys[c23R(t, "key", 0, len(c23Keys)-1)]
+		if c23R(t, "hotKey", 0, 9) < 6 {
+			op.Name = c23Keys[c23R(t, "hotKeyIdx", 0, 1)]
+		}
 		op.Val = c23R(t, "valLen", 0, 20)
 	case "lp", "lu", "ld":
 		op.Name = c23Keys[c23R(t, "key", 0, len(c23Keys)-1)]
+		if c23R(t, "hotKey", 0, 9) < 6 {
+			op.Name = c23Keys[c23R(t, "hotKeyIdx", 0, 1)]
+		}
 		op.Val = c23R(t, "valLen", 0, 20)
 		pickFrom("optedCaller", opted)
 	case "optin":
@@ -849,8 +855,9 @@ func TestVerif_C23_History(t *testing.T) {
 		}
 		cfg := config.GetDefaultLocal()
 		// the LRU caches and the verified-txn cache preallocate ~100k entries each, which dominates the cost of a case
-		cfg.DisableLedgerLRUCache = c23R(t, "lru", 0, 7) != 0
+		cfg.DisableLedgerLRUCache = c23R(t, "lru", 0, 9) != 0
 		cfg.VerifiedTranscationsCacheSize = 2000
+		cfg.TxPoolSize = 1000 // OpenLedger sizes the verified-txn cache to at least TxPoolSize
 		t0 := time.Now()
 		l := newSimpleLedgerWithConsensusVersion(tt, gen, cv, cfg, simpleLedgerLogger(quiet))
 		defer l.Close()
@@ -1004,6 +1011,30 @@ func TestVerif_C23_History(t *testing.T) {
 				w.m = mc
 				for k := range gnts {
 					nts[k] = true
+				}
+				for _, op := range ops {
+					switch op.K {
+					case "bc", "br", "dc", "bp":
+						sz := op.Size
+						if op.K == "bp" {
+							sz = op.Val
+						}
+						switch {
+						case sz >= 32767:
+							vk.Label("accepted-size:max")
+						case sz >= 4096:
+							vk.Label("accepted-size:>=4096")
+						case sz >= 1024:
+							vk.Label("accepted-size:>=1024")
+						case sz == 0:
+							vk.Label("accepted-size:0")
+						}
+						if len(op.Name) >= 63 {
+							vk.Label("accepted-name:len63-64")
+						} else if strings.ContainsAny(op.Name, "\x00\xff") {
+							vk.Label("accepted-name:00/ff")
+						}
+					}
 				}
 			}
 			endBlock(tt, l, eval)
